@@ -49,6 +49,21 @@ CORPUS: list[dict] = [
     {"mode": "tdep", "y0": ["2", "1"], "p0": ["1/2", "1"],
      "ops": [["sim", "1", 2], ["updvar", {"y": "0"}], ["prot", [["1", {"k": "1"}], ["1/2", {"k": "1/4"}]], 2],
              ["ptc", [["1", {"k": "2"}], ["1", {"k": "1/2"}]], ["1/2", "1", "3/2"], True]]},
+    # dense sampling right after a switch, late in absolute time (seeded/C14-4): requested points 2^-8 / 2^-9 after an inner
+    # boundary of a protocol with long steps; a simulator continued at t = 2048 and a relative grid starting at 2^-7
+    {"mode": "exact", "y0": ["1", "1"], "p0": ["1", "1/2", "0", "0"],
+     "ops": [["ptc", [["1024", {"k": "2"}], ["1024", {"k": "1/2"}], ["512", {"k": "0"}]],
+              ["512", "262145/256", "2049/2", "1536", "1048577/512", "2304"], False]]},
+    {"mode": "scipy", "y0": ["2", "1"], "p0": ["1", "1/2"],
+     "ops": [["ptc", [["1024", {"k": "2"}], ["1024", {"k": "1/2"}], ["512", {"k": "0"}]],
+              ["512", "262145/256", "2049/2", "1536", "1048577/512", "2304"], False]]},
+    {"mode": "exact", "y0": ["1", "1"], "p0": ["1", "1/2", "1/2", "0"],
+     "ops": [["sim", "2048", 4], ["ptc", [["128", {"k": "2"}], ["256", {"k": "1/2"}]], ["1/128", "64", "16385/128", "384"], True]]},
+    # regression of the repaired defect protocol-start-rounded-to-ns (/repo ad9e406): a start that is not a whole number of ns
+    {"mode": "exact", "y0": ["1", "1"], "p0": ["1", "1/2", "0", "0"],
+     "ops": [["sim", "1/1024", 1], ["ptc", [["1", {"k": "2"}]], ["1/2", "1"], True]]},
+    {"mode": "scipy", "y0": ["2", "1"], "p0": ["1", "1/2"],
+     "ops": [["sim", "1/1024", 1], ["ptc", [["1", {"k": "2"}]], ["1/2", "1"], True]]},
 ]
 
 
@@ -164,6 +179,10 @@ def histories(run: Run) -> list[dict]:
         hs.append(S.gen_history(rng, "tdep", 4, weights=w, special=False))
     for j in range(n_shared):
         hs.append(S.gen_shared_grid(rng, "exact" if j % 3 else "scipy"))
+    # dense sampling right after a switch at late absolute times -- own stream, so the histories above are what they were
+    rng_late = common.rng_for(run.seed, "c14-late")
+    for j in range(450 if thorough else 72):
+        hs.append(S.gen_late_switch(rng_late, "exact" if j % 3 else "scipy"))
     return [h for h in hs if any(op[0] in ("prot", "ptc") for op in h["ops"])]
 
 
@@ -177,7 +196,10 @@ def check(run: Run) -> None:
         "real Simulator + real Scipy class on the exact stand-in solver (x'=k*y, y'=c: the state depends on WHEN k switches) and on the "
         "real scipy (x'=-k*x, y'=k*x-c*y; x'=-k*time*x, y'=c*time-k*y); ~20% of the grids are caller-owned float64 ndarrays and a family of "
         "repeated cycles hands the SAME ndarray of (mostly relative) points to 2-3 consecutive calls: the array must be unchanged after "
-        "each call and each call's axis is judged; non-trivial = >= 2 steps or a continued simulator; distinct by content"
+        "each call and each call's axis is judged; a family of protocol time courses late in absolute time (simulator continued at "
+        "t = 512..4096, or steps lasting 512..2048) whose grids hold points 2^-7..2^-9 after the START of a step (the protocol's start or "
+        "an inner boundary), the boundary itself, points just before it: the row boundary + gap must exist and hold the solution after "
+        "`gap` under the new step's values; non-trivial = >= 2 steps or a continued simulator; distinct by content"
     )
     proofs_ok = run.check_proofs(AREA, PROPS)
     run.assumptions += S.ASSUMPTIONS
